@@ -1122,6 +1122,33 @@ Proof.
   unfold sent_of. intros ->. rewrite filter_app, map_app. cbn. destruct (N.eqb (e_pub e) p); reflexivity.
 Qed.
 
+Lemma sync_holder fx s t th :
+  InvA fx s -> threads s t = Some th -> in_sync_cs fx (t_pc th) = true ->
+  sync_mu s (k_pub (t_kind th)) = Some t.
+Proof.
+  intros A Hth Hcs. pose proof (A _ _ Hth) as At. unfold tinvA in At. rewrite Hcs in At.
+  apply andb_prop in At. destruct At as [At _]. apply andb_prop in At. destruct At as [_ At].
+  apply holds_eq. exact At.
+Qed.
+
+Lemma pend_other s s' t th th' p0 :
+  p0 <> k_pub (t_kind th) -> sync_mu s' p0 = sync_mu s p0 -> threads s t = Some th ->
+  threads s' = updt (threads s) t th' -> t_kind th' = t_kind th ->
+  pend p0 s' = pend p0 s.
+Proof.
+  intros Hne Hm Hth Ht Hk. unfold pend. rewrite Hm, Ht.
+  destruct (sync_mu s p0) as [t1|]; [|reflexivity].
+  destruct (Nat.eq_dec t1 t) as [->|Hn].
+  - rewrite updt_same, Hth, Hk.
+    destruct (N.eqb_spec (k_pub (t_kind th)) p0) as [E|_]; [congruence|]. rewrite !andb_false_r. reflexivity.
+  - rewrite updt_other by assumption. reflexivity.
+Qed.
+
+Lemma updN_other {A} (m : N -> option A) p v q : q <> p -> updN m p v q = m q.
+Proof. intro H. unfold updN. destruct (N.eqb_spec q p); [contradiction|reflexivity]. Qed.
+Lemma updN_same {A} (m : N -> option A) p v : updN m p v p = v.
+Proof. unfold updN. rewrite N.eqb_refl. reflexivity. Qed.
+
 Ltac frameD D Hth :=
   let p0 := fresh "p0" in
   match goal with
@@ -1129,7 +1156,7 @@ Ltac frameD D Hth :=
     match type of Hth with
     | threads ?s _ = _ =>
       intro p0; rewrite (done_of_unchanged p0 s s' eq_refl), (sent_of_unchanged p0 s s' eq_refl);
-      rewrite (D p0); f_equal;
+      rewrite (D p0); f_equal; symmetry;
       eapply pend_frame; [reflexivity|exact Hth|reflexivity| |reflexivity]
     end
   end.
@@ -1144,22 +1171,405 @@ Proof.
     unfold pend; ssimp. destruct (sync_mu s p0) as [t1|]; [|reflexivity].
     destruct (Nat.eq_dec t1 (next_tid s)) as [->|Hne].
     + rewrite updt_same. destruct (threads s (next_tid s)) eqn:Hn; [specialize (B6 _ _ Hn); lia|].
-      destruct k; [destruct (exp_closed s)|]; reflexivity.
+      unfold new_thread. destruct k; [destruct (exp_closed s)|]; reflexivity.
     + rewrite updt_other by assumption. reflexivity.
-  - admit.
-  - admit.
-  - admit.
-  - admit.
-  - admit.
-  - admit.
-  - admit.
-  - admit.
-  - admit.
-  - admit.
-  - admit.
-  - admit.
-  - admit.
-  - admit.
-  - admit.
-  - admit.
-Abort.
+  - (* PLock *)
+    intro p0.
+    match goal with |- done_of _ ?s' = _ => rewrite (done_of_unchanged p0 s s' eq_refl), (sent_of_unchanged p0 s s' eq_refl) end.
+    rewrite (D p0). f_equal. symmetry.
+    destruct (N.eq_dec p0 (k_pub (t_kind th))) as [->|Hne].
+    + unfold pend; ssimp. rewrite updN_same, updt_same, Hsmu. reflexivity.
+    + eapply pend_other; [exact Hne| |exact Hth|reflexivity|reflexivity]. ssimp. apply updN_other. exact Hne.
+  - (* PRun fails *)
+    assert (Hh : sync_mu s (k_pub (t_kind th)) = Some t) by (eapply sync_holder; [exact A|exact Hth|rewrite Hpc; reflexivity]).
+    intro p0.
+    match goal with |- done_of _ ?s' = _ =>
+      rewrite (done_of_app p0 s s' _ _ _ _ eq_refl), (sent_of_unchanged p0 s s' eq_refl) end.
+    rewrite (D p0), <- app_assoc. f_equal.
+    destruct (N.eq_dec p0 (k_pub (t_kind th))) as [->|Hne].
+    + rewrite N.eqb_refl, andb_true_r.
+      unfold pend; ssimp. rewrite Hh, updt_same, Hth, Hpc. cbn [pending_pc andb app].
+      unfold sends, after_handle, set_out; ssimp. rewrite N.eqb_refl.
+      destruct (k_async (t_kind th)); reflexivity.
+    + destruct (N.eqb_spec (k_pub (t_kind th)) p0) as [E|_]; [congruence|]. rewrite andb_false_r, app_nil_r.
+      symmetry. eapply pend_other; [exact Hne|reflexivity|exact Hth|reflexivity|reflexivity].
+  - (* PRun succeeds *)
+    assert (Hh : sync_mu s (k_pub (t_kind th)) = Some t) by (eapply sync_holder; [exact A|exact Hth|rewrite Hpc; reflexivity]).
+    intro p0.
+    match goal with |- done_of _ ?s' = _ =>
+      rewrite (done_of_app p0 s s' _ _ _ _ eq_refl), (sent_of_unchanged p0 s s' eq_refl) end.
+    rewrite (D p0), <- app_assoc. f_equal.
+    destruct (N.eq_dec p0 (k_pub (t_kind th))) as [->|Hne].
+    + rewrite N.eqb_refl, andb_true_r.
+      unfold pend; ssimp. rewrite Hh, updt_same, Hth, Hpc. cbn [pending_pc andb app].
+      unfold sends, after_handle, set_out; ssimp. rewrite N.eqb_refl.
+      destruct (k_upd (t_kind th)); reflexivity.
+    + destruct (N.eqb_spec (k_pub (t_kind th)) p0) as [E|_]; [congruence|]. rewrite andb_false_r, app_nil_r.
+      symmetry. eapply pend_other; [exact Hne|reflexivity|exact Hth|reflexivity|reflexivity].
+  - (* PUnlock *)
+    assert (Hh : sync_mu s (k_pub (t_kind th)) = Some t) by (eapply sync_holder; [exact A|exact Hth|rewrite Hpc; reflexivity]).
+    intro p0.
+    match goal with |- done_of _ ?s' = _ => rewrite (done_of_unchanged p0 s s' eq_refl), (sent_of_unchanged p0 s s' eq_refl) end.
+    rewrite (D p0). f_equal. symmetry.
+    destruct (N.eq_dec p0 (k_pub (t_kind th))) as [->|Hne].
+    + unfold pend; ssimp. rewrite updN_same, Hh, Hth, Hpc. reflexivity.
+    + eapply pend_other; [exact Hne| |exact Hth|reflexivity|reflexivity]. ssimp. apply updN_other. exact Hne.
+  - (* PSend *)
+    assert (Hh : sync_mu s (k_pub (t_kind th)) = Some t) by (eapply sync_holder; [exact A|exact Hth|rewrite Hpc; reflexivity]).
+    intro p0.
+    match goal with |- done_of _ ?s' = _ =>
+      rewrite (done_of_unchanged p0 s s' eq_refl), (sent_of_app p0 s s' _ eq_refl) end.
+    rewrite (D p0), <- app_assoc. f_equal. ssimp.
+    destruct (N.eq_dec p0 (k_pub (t_kind th))) as [->|Hne].
+    + rewrite N.eqb_refl.
+      unfold pend; ssimp. rewrite Hh, updt_same, Hth, Hpc. cbn [pending_pc andb app]. rewrite N.eqb_refl. reflexivity.
+    + destruct (N.eqb_spec (k_pub (t_kind th)) p0) as [E|_]; [congruence|]. cbn [app].
+      symmetry. eapply pend_other; [exact Hne|reflexivity|exact Hth|reflexivity|reflexivity].
+  - (* PSendErr *)
+    assert (Hh : sync_mu s (k_pub (t_kind th)) = Some t) by (eapply sync_holder; [exact A|exact Hth|rewrite Hpc; reflexivity]).
+    intro p0.
+    match goal with |- done_of _ ?s' = _ =>
+      rewrite (done_of_unchanged p0 s s' eq_refl), (sent_of_app p0 s s' _ eq_refl) end.
+    rewrite (D p0), <- app_assoc. f_equal. ssimp.
+    destruct (N.eq_dec p0 (k_pub (t_kind th))) as [->|Hne].
+    + rewrite N.eqb_refl.
+      unfold pend; ssimp. rewrite Hh, updt_same, Hth, Hpc. cbn [pending_pc andb app]. rewrite N.eqb_refl. reflexivity.
+    + destruct (N.eqb_spec (k_pub (t_kind th)) p0) as [E|_]; [congruence|]. cbn [app].
+      symmetry. eapply pend_other; [exact Hne|reflexivity|exact Hth|reflexivity|reflexivity].
+  - intro p0; exact (D p0).
+  - intro p0; exact (D p0).
+  - intro p0; exact (D p0).
+  - intro p0; exact (D p0).
+  - intro p0; exact (D p0).
+  - intro p0; exact (D p0).
+  - intro p0; exact (D p0).
+Qed.
+
+Theorem invD_reach s : reach true s -> InvD s.
+Proof.
+  apply (invariant_reachable2 (stepf true) (fun s => InvB s /\ InvA true s) InvD).
+  - intros s0 R. split; [apply (invB_reach _ _ R)|apply (invA_reach _ _ R)].
+  - apply invD_init.
+  - intros s0 l s1 [HB HA] HD Hs. eapply invD_step; eassumption.
+Qed.
+
+(* ================================================================== *)
+(* Property theorems (sync layer, all schedules)                       *)
+
+(* the global forward order is the order in which the syncs sent their events *)
+Theorem forward_order_is_send_order fx s :
+  reach fx s -> sent_log s = fwd (co s) ++ opt_list (in_ev (co s)).
+Proof. intro R. apply (invC_reach _ _ R). Qed.
+
+Theorem exactly_once_in_order fx s l x :
+  reach fx s -> lst (co s) l = Some x -> l_reg x = true ->
+  l_got x ++ l_q x ++ pending (co s) l = seg x (fwd (co s)).
+Proof. intro R. apply core_exactly_once. eapply reach_core; eassumption. Qed.
+
+Lemma NoDup_map_app_l {A B} (f : A -> B) l1 l2 : NoDup (map f (l1 ++ l2)) -> NoDup (map f l1).
+Proof.
+  rewrite map_app. revert l2. induction l1 as [|a r IH]; intros l2 H; cbn in *; [constructor|].
+  inversion H; subst. constructor; [|eapply IH; eassumption].
+  intro Hin. apply H2. apply in_or_app. left. assumption.
+Qed.
+Lemma NoDup_map_app_r {A B} (f : A -> B) l1 l2 : NoDup (map f (l1 ++ l2)) -> NoDup (map f l2).
+Proof.
+  rewrite map_app. induction l1 as [|a r IH]; intro H; cbn in *; [assumption|]. inversion H; auto.
+Qed.
+
+(* no notification reaches a listener twice *)
+Theorem listener_no_duplicates fx s l x :
+  reach fx s -> lst (co s) l = Some x -> NoDup (map e_sid (l_got x ++ l_q x)).
+Proof.
+  intros R Hl. destruct (invC_reach _ _ R) as (C1 & _ & _ & C4 & _).
+  destruct (l_reg x) eqn:Hr.
+  - pose proof (exactly_once_in_order _ _ _ _ R Hl Hr) as E.
+    rewrite C1 in C4. apply NoDup_map_app_l in C4.
+    assert (N1 : NoDup (map e_sid (seg x (fwd (co s))))).
+    { unfold seg. set (n := match l_end x with Some n => n | None => _ end).
+      rewrite <- (firstn_skipn n (fwd (co s))) in C4. apply NoDup_map_app_l in C4.
+      rewrite <- (firstn_skipn (l_start x) (firstn n (fwd (co s)))) in C4. apply NoDup_map_app_r in C4. exact C4. }
+    rewrite <- E in N1. rewrite app_assoc in N1. apply NoDup_map_app_l in N1. exact N1.
+  - destruct (core_unregistered_empty _ _ _ (reach_core _ _ R) Hl Hr) as [-> ->]. constructor.
+Qed.
+
+Theorem closed_after_queued fx s l x :
+  reach fx s -> lst (co s) l = Some x -> l_out_closed x = true ->
+  l_in_closed x = true /\ l_q x = [] /\ pending (co s) l = [] /\
+  (l_reg x = true -> exists n, l_end x = Some n /\ l_got x = skipn (l_start x) (firstn n (fwd (co s)))).
+Proof. intro R. apply core_closed_after_queued. eapply reach_core; eassumption. Qed.
+
+(* the cancel rendez-vous closes the listener's input: nothing is queued after it,
+   what is queued stays readable *)
+Theorem cancel_closes s l s' x :
+  creach s -> cstep s (LRm l) = Some s' -> lst s l = Some x -> l_reg x = true -> l_in_closed x = false ->
+  exists x', lst s' l = Some x' /\ l_in_closed x' = true /\ l_q x' = l_q x /\ l_got x' = l_got x /\
+             l_end x' = Some (List.length (fwd s)) /\ ~ In l (d_list s').
+Proof.
+  intros R H Hl Hr Hc. destruct (cinv_reach _ R) as (ND & A2 & A3 & A4 & _).
+  pose proof (A4 _ _ Hl) as (L1 & L2 & L3 & L4 & L5 & L6).
+  assert (E : l_end x = None).
+  { destruct (l_end x) eqn:E; [|reflexivity]. destruct (L4 _ eq_refl) as (_ & ? & _). congruence. }
+  cbn [cstep] in H. destruct (d_pc s) eqn:Hpc; try discriminate.
+  pose proof (A3 _ _ Hl Hr E) as Hin. unfold active in Hin, ND. rewrite Hpc in Hin, ND.
+  assert (Hm : memn l (d_list s) = true) by (apply memn_In; exact Hin).
+  rewrite Hm, Hl, Hc in H. inversion H; subst; clear H. csimp.
+  eexists. rewrite updl_same. split; [reflexivity|]. csimp. repeat split; auto.
+  intro Hi. apply swap_remove_In in Hi; [|exact ND]. destruct Hi as [_ Hne]. congruence.
+Qed.
+
+Theorem close_closes_all fx s :
+  reach fx s -> d_pc (co s) = DDone ->
+  forall l x, lst (co s) l = Some x -> l_reg x = true -> l_in_closed x = true.
+Proof. intros R. apply core_done_closed_all. eapply reach_core; eassumption. Qed.
+
+(* ---- forwarding and sending never wait for a reader ---- *)
+
+Lemma run_core_dist fx n : forall s c',
+  run_dist n (co s) = Some c' ->
+  run (stepf fx) s (repeat (Core LDist) n) = Some (w_co s c').
+Proof.
+  induction n as [|n IH]; intros s c' H.
+  - cbn in H. inversion H; subst. destruct s; reflexivity.
+  - cbn [run_dist] in H. destruct (cstep (co s) LDist) as [c1|] eqn:E; [|discriminate].
+    cbn [repeat run stepf core_label_ok]. rewrite E.
+    rewrite (IH (w_co s c1) c' H). reflexivity.
+Qed.
+
+Lemma reach_run fx s ls s' : reach fx s -> run (stepf fx) s ls = Some s' -> reach fx s'.
+Proof.
+  intros [l0 R] H. exists (l0 ++ ls). rewrite run_app, R. exact H.
+Qed.
+
+Theorem forward_never_blocks fx s :
+  reach fx s ->
+  exists s', run (stepf fx) s (repeat (Core LDist) (dist_rank (co s))) = Some s' /\
+             dist_rank (co s') = 0 /\ threads s' = threads s.
+Proof.
+  intro R. destruct (core_forward_never_blocks _ (reach_core _ _ R)) as (c' & Hrun & H0 & _).
+  exists (w_co s c'). split; [apply run_core_dist; exact Hrun|]. auto.
+Qed.
+
+(* a sync that has its event ready is held up by the distributor's own steps only:
+   after at most dist_rank + 1 of them its send is enabled, whatever the readers do *)
+Theorem sync_send_not_delayed_by_readers fx s t th :
+  reach fx s -> threads s t = Some th -> (t_pc th = PSend \/ t_pc th = PSendErr) ->
+  exists n s1 s2, n <= S (dist_rank (co s)) /\
+    run (stepf fx) s (repeat (Core LDist) n) = Some s1 /\ stepf fx s1 (Step t 0) = Some s2.
+Proof.
+  intros R Hth Hpc.
+  destruct (forward_never_blocks _ _ R) as (s1 & Hrun & H0 & Hthr).
+  assert (R1 : reach fx s1) by (eapply reach_run; eassumption).
+  assert (Hth1 : threads s1 t = Some th) by (rewrite Hthr; exact Hth).
+  pose proof (sender_not_closed s1 t th (invB_reach _ _ R1) Hth1 Hpc) as Hic.
+  destruct (cinv_reach _ (reach_core _ _ R1)) as (_ & _ & _ & _ & _ & A6 & _).
+  assert (Hsel : d_pc (co s1) = DSelect).
+  { unfold dist_rank in H0. unfold dinv in A6. destruct (d_pc (co s1)); try discriminate H0; try reflexivity.
+    destruct A6 as (_ & ? & _). congruence. }
+  assert (Enabled : forall s', threads s' t = Some th -> in_closed (co s') = false -> in_ev (co s') = None ->
+                               exists s2, stepf fx s' (Step t 0) = Some s2).
+  { intros s' Ht' Hc' Hi'. cbn [stepf]. rewrite Ht'. unfold step_thread.
+    destruct Hpc as [-> | ->]; cbn [cstep]; rewrite Hc', Hi'; eexists; reflexivity. }
+  destruct (in_ev (co s1)) as [e|] eqn:Hi.
+  - (* one more distributor step takes the queued event *)
+    destruct (core_inevents_drained _ e (reach_core _ _ R1) Hsel Hi) as (c2 & Hc2 & Hi2 & _).
+    assert (Hic2 : in_closed c2 = false).
+    { destruct (cstep_ok_frame _ LDist _ eq_refl Hc2) as (F1 & _). congruence. }
+    destruct (Enabled (w_co s1 c2) Hth1 Hic2 Hi2) as (s2 & Hs2).
+    exists (S (dist_rank (co s))), (w_co s1 c2), s2. split; [lia|]. split; [|exact Hs2].
+    replace (S (dist_rank (co s))) with (dist_rank (co s) + 1) by lia.
+    rewrite repeat_app, run_app, Hrun. cbn [repeat run stepf core_label_ok]. rewrite Hc2. reflexivity.
+  - destruct (Enabled s1 Hth1 Hic Hi) as (s2 & Hs2).
+    exists (dist_rank (co s)), s1, s2. split; [lia|]. split; assumption.
+Qed.
+
+(* ---- one notification per sync that owes one ---- *)
+
+Lemma tinvC_split fx t th :
+  tinvC fx t th = true ->
+  (if pre_send fx (t_pc th) then negb (is_some (t_ev th)) else Bool.eqb (is_some (t_ev th)) (sends th)) = true /\
+  ev_ok t th = true.
+Proof.
+  unfold tinvC. intro H. apply andb_prop in H. destruct H as [H H5]. apply andb_prop in H. destruct H as [H H4].
+  split; assumption.
+Qed.
+
+Lemma ev_ok_some t th e :
+  ev_ok t th = true -> t_ev th = Some e ->
+  e = mk_event t (t_kind th) (if e_err e then 0%N else out_cnt th) (e_err e) /\ e_err e = negb (out_ok th).
+Proof.
+  unfold ev_ok. intros H He. rewrite He in H. apply andb_prop in H. destruct H as [H1 H2].
+  split; [apply event_eqb_eq; exact H1|apply Bool.eqb_prop; exact H2].
+Qed.
+
+Lemma pre_send_fin fx : pre_send fx PFin = false.
+Proof. destruct fx; reflexivity. Qed.
+
+Theorem event_of_sync fx s e :
+  reach fx s -> In e (sent_log s) ->
+  exists th, threads s (e_sid e) = Some th /\ t_ev th = Some e /\
+             e = mk_event (e_sid e) (t_kind th) (if e_err e then 0%N else out_cnt th) (e_err e) /\
+             e_err e = negb (out_ok th) /\ sends th = true.
+Proof.
+  intros R He. destruct (invC_reach _ _ R) as (_ & C2 & _ & _ & C5).
+  destruct (C2 _ He) as (th & Hth & Hev). exists th. split; [exact Hth|]. split; [exact Hev|].
+  destruct (tinvC_split _ _ _ (C5 _ _ Hth)) as [H4 H5].
+  destruct (ev_ok_some _ _ _ H5 Hev) as [E1 E2]. split; [exact E1|]. split; [exact E2|].
+  pose proof (tinvC_pre_send _ _ _ (C5 _ _ Hth)) as Hps.
+  destruct (pre_send fx (t_pc th)); [specialize (Hps eq_refl); congruence|].
+  rewrite Hev in H4. apply Bool.eqb_prop in H4. cbn in H4. congruence.
+Qed.
+
+Lemma fin_event fx s t th :
+  reach fx s -> threads s t = Some th -> t_pc th = PFin ->
+  is_some (t_ev th) = sends th /\ ev_ok t th = true.
+Proof.
+  intros R Hth Hpc. destruct (invC_reach _ _ R) as (_ & _ & _ & _ & C5).
+  destruct (tinvC_split _ _ _ (C5 _ _ Hth)) as [H4 H5]. rewrite Hpc, pre_send_fin in H4.
+  split; [apply Bool.eqb_prop; exact H4|exact H5].
+Qed.
+
+Theorem one_event_per_sync fx s t th :
+  reach fx s -> threads s t = Some th -> t_pc th = PFin ->
+  count_occ Nat.eq_dec (map e_sid (sent_log s)) t = if sends th then 1 else 0.
+Proof.
+  intros R Hth Hpc. destruct (invC_reach _ _ R) as (_ & C2 & C3 & C4 & _).
+  destruct (fin_event _ _ _ _ R Hth Hpc) as [H4 H5]. rewrite <- H4.
+  destruct (t_ev th) as [e|] eqn:Hev; cbn.
+  - apply NoDup_count_occ'; [exact C4|]. apply in_map_iff. exists e. split; [|eapply C3; eassumption].
+    destruct (ev_ok_some _ _ _ H5 Hev) as [E1 _]. rewrite E1. reflexivity.
+  - apply count_occ_not_In. intro Hin. apply in_map_iff in Hin. destruct Hin as (e & Hs & He).
+    destruct (C2 _ He) as (th' & Hth' & Hev'). rewrite Hs, Hth in Hth'. inversion Hth'; subst. congruence.
+Qed.
+
+(* a finished sync that updated the publisher's latest-sync: exactly one notification,
+   carrying its publisher, CID and block count *)
+Corollary one_event_per_updating_sync fx s t th n :
+  reach fx s -> threads s t = Some th -> t_pc th = PFin ->
+  t_out th = Some (true, n) -> k_upd (t_kind th) = true ->
+  count_occ Nat.eq_dec (map e_sid (sent_log s)) t = 1 /\
+  In (mk_event t (t_kind th) n false) (sent_log s).
+Proof.
+  intros R Hth Hpc Ho Hu. split.
+  - rewrite (one_event_per_sync _ _ _ _ R Hth Hpc). unfold sends. rewrite Ho, Hu. reflexivity.
+  - destruct (invC_reach _ _ R) as (_ & _ & C3 & _ & _).
+    destruct (fin_event _ _ _ _ R Hth Hpc) as [H4 H5]. unfold sends in H4. rewrite Ho, Hu in H4.
+    destruct (t_ev th) as [e|] eqn:Hev; [|discriminate H4].
+    pose proof (C3 _ _ _ Hth Hev) as Hin.
+    destruct (ev_ok_some _ _ _ H5 Hev) as [E1 E2]. unfold out_ok in E2. rewrite Ho in E2. cbn in E2.
+    rewrite E2 in E1. unfold out_cnt in E1. rewrite Ho in E1. rewrite <- E1. exact Hin.
+Qed.
+
+(* a finished announce-triggered sync that failed: exactly one error notification *)
+Corollary one_error_event_per_failed_async fx s t th n :
+  reach fx s -> threads s t = Some th -> t_pc th = PFin ->
+  t_out th = Some (false, n) -> k_async (t_kind th) = true ->
+  count_occ Nat.eq_dec (map e_sid (sent_log s)) t = 1 /\
+  In (mk_event t (t_kind th) 0%N true) (sent_log s).
+Proof.
+  intros R Hth Hpc Ho Hu. split.
+  - rewrite (one_event_per_sync _ _ _ _ R Hth Hpc). unfold sends. rewrite Ho, Hu. reflexivity.
+  - destruct (invC_reach _ _ R) as (_ & _ & C3 & _ & _).
+    destruct (fin_event _ _ _ _ R Hth Hpc) as [H4 H5]. unfold sends in H4. rewrite Ho, Hu in H4.
+    destruct (t_ev th) as [e|] eqn:Hev; [|discriminate H4].
+    pose proof (C3 _ _ _ Hth Hev) as Hin.
+    destruct (ev_ok_some _ _ _ H5 Hev) as [E1 E2]. unfold out_ok in E2. rewrite Ho in E2. cbn in E2.
+    rewrite E2 in E1. rewrite <- E1. exact Hin.
+Qed.
+
+(* every other finished sync (failed explicit sync, explicit sync of a given head,
+   nothing to do, refused because shutting down): no notification *)
+Corollary no_event_otherwise fx s t th :
+  reach fx s -> threads s t = Some th -> t_pc th = PFin -> sends th = false ->
+  ~ In t (map e_sid (sent_log s)).
+Proof.
+  intros R Hth Hpc Hs Hin. pose proof (one_event_per_sync _ _ _ _ R Hth Hpc) as H. rewrite Hs in H.
+  apply (count_occ_not_In Nat.eq_dec) in H; [exact H|exact Hin].
+Qed.
+
+Theorem latest_before_event fx s e :
+  reach fx s -> In e (sent_log s) -> e_err e = false ->
+  In (e_pub e, e_cid e, e_sid e) (latest_log s).
+Proof.
+  intros R He Herr. destruct (event_of_sync _ _ _ R He) as (th & Hth & Hev & Heq & _).
+  pose proof (invE_reach _ _ R _ _ Hth (or_intror (ex_intro _ e (conj Hev Herr)))) as H.
+  rewrite Heq. cbn. exact H.
+Qed.
+
+Theorem no_panic fx s : reach fx s -> p_env (co s) = false /\ p_dist (co s) = false.
+Proof.
+  intro R. split; [apply (invB_reach _ _ R)|apply core_distributor_never_panics; eapply reach_core; eassumption].
+Qed.
+
+(* ---- per-publisher order ---- *)
+
+Theorem per_publisher_order s p :
+  reach true s -> exists r, done_of p s = sent_of p s ++ r /\ List.length r <= 1.
+Proof.
+  intro R. exists (pend p s). split; [apply (invD_reach _ R)|].
+  unfold pend. destruct (sync_mu s p); [|cbn; lia]. destruct (threads s n); [|cbn; lia].
+  destruct (pending_pc (t_pc t) && N.eqb (k_pub (t_kind t)) p); cbn; lia.
+Qed.
+
+(* the code as found: two explicit syncs of one publisher; A completes first, B second;
+   B's event and latest-sync update overtake A's *)
+Definition order_witness : list label :=
+  [Spawn (KExp 1 10 true); Spawn (KExp 1 20 true);
+   Step 0 0; Step 0 0; Step 0 3; Step 0 0;
+   Step 1 0; Step 1 0; Step 1 4; Step 1 0; Step 1 0; Step 1 0;
+   Core LDist; Core LDist;
+   Step 0 0; Step 0 0; Core LDist; Core LDist;
+   Step 0 0; Step 0 0; Step 1 0; Step 1 0].
+
+Definition order_check (s : st) : bool :=
+  list_eq_dec Nat.eq_dec (done_of 1 s) [0; 1] && list_eq_dec Nat.eq_dec (sent_of 1 s) [1; 0] &&
+  match latest s 1%N with Some c => N.eqb c 10 | None => false end &&
+  match threads s 0, threads s 1 with
+  | Some a, Some b => match t_pc a, t_pc b with PFin, PFin => true | _, _ => false end
+  | _, _ => false
+  end.
+
+Theorem per_publisher_order_refuted :
+  exists s, reach false s /\ done_of 1%N s = [0; 1] /\ sent_of 1%N s = [1; 0] /\ latest s 1%N = Some 10%N.
+Proof.
+  assert (H : match run (stepf false) init order_witness with Some s => order_check s | None => false end = true)
+    by (vm_compute; reflexivity).
+  destruct (run (stepf false) init order_witness) as [s|] eqn:E; [|discriminate].
+  exists s. split; [exists order_witness; exact E|].
+  unfold order_check in H. repeat (apply andb_prop in H; destruct H as [H ?]).
+  destruct (list_eq_dec Nat.eq_dec (done_of 1%N s) [0; 1]); [|discriminate].
+  destruct (list_eq_dec Nat.eq_dec (sent_of 1%N s) [1; 0]); [|discriminate].
+  destruct (latest s 1%N); [|discriminate]. apply N.eqb_eq in H1. subst. auto.
+Qed.
+
+(* the same schedule is impossible once the event is sent inside the sync lock *)
+Example order_witness_impossible_when_fixed : run (stepf true) init order_witness = None.
+Proof. vm_compute. reflexivity. Qed.
+
+(* ---- non-vacuity: a run with two publishers, a registration racing with a forward,
+        a cancel, a stalled listener and a close ---- *)
+Definition demo : list label :=
+  [Core LNew; Core (LAdd 0); Core LDist;
+   Spawn (KExp 1 10 true); Spawn (KAsync 2 30);
+   Step 0 0; Step 0 0; Step 0 4; Step 0 0; Step 0 0;   (* explicit sync of 1 sends *)
+   Core LDist; Core LNew;                               (* taken; a second listener is created *)
+   Core LDist; Core LDist; Core (LAdd 1); Core LDist;   (* forwarded to 0; then 1 is added *)
+   Step 1 0; Step 1 0; Step 1 0; Step 1 0; Step 1 0; Step 1 0;   (* async sync of 2 fails, sends error *)
+   Step 0 0; Step 0 0; Step 1 0; Step 1 0;
+   Core LDist; Core LDist; Core LDist; Core LDist;
+   Core (LRead 0); Core (LRm 0); Core LDist; Core (LRead 0); Core (LRead 0);
+   Closer; Closer; Closer; Closer; Closer; Closer;
+   Core LDist; Core LDist; Core LDist; Core (LRead 1); Core (LRead 1)].
+
+Example demo_runs :
+  match run (stepf true) init demo with
+  | Some s =>
+    match lst (co s) 0, lst (co s) 1 with
+    | Some a, Some b =>
+      (List.length (l_got a) =? 2) && l_out_closed a && (List.length (l_got b) =? 1) && l_out_closed b &&
+      match d_pc (co s) with DDone => true | _ => false end
+    | _, _ => false
+    end
+  | None => false
+  end = true.
+Proof. vm_compute. reflexivity. Qed.
